@@ -144,6 +144,7 @@ type AckObs struct {
 	OkAtAck     []bool `json:"okAtAck"`
 	OpenAtAck   []bool `json:"openAtAck"`
 	FailedAtAck bool   `json:"failedAtAck"`
+	StopBefore  bool   `json:"stopBefore"` // the runner's Cancel() had already been called before this acknowledgement
 }
 
 type CfgObs struct {
